@@ -16,6 +16,9 @@ delay changes: whatever `register_local_inputs` hands to the remote endpoints is
 queue content, frame after frame.
 -/
 import GgrsModel.Model.Inventory
+import GgrsModel.Model.Sites.InputQueue
+import GgrsModel.Model.Sites.SyncLayer
+import GgrsModel.Model.Sites.P2pSession
 import GgrsModel.Proofs.Pair
 import GgrsModel.Proofs.Queue
 import GgrsModel.Proofs.DelayStep
